@@ -130,8 +130,11 @@ Definition case_whist (l : list Z) : list Z :=
      shx bytes (if has_shx); nops; ops..]
     req = -1 (generic Shape) or the code of a concrete type; fault_k = -1: no
     fault.  op = 0 j (iterate, at most j items; j = -1: to the end) |
-    1 i (read_nth) | 2 k (seek) | 3 (count) | 4 (size_hint of a new iterator). *)
-Inductive rop := OIter (j : Z) | ONth (i : Z) | OSeek (k : Z) | OCount | OHint.
+    1 i (read_nth) | 2 k (seek) | 3 (count) | 4 (size_hint of a new iterator) |
+    5 k j (iterator adaptors: skip k, take j >= 1, collected) |
+    6 (`read_as` / `read`: everything that is left, stopping at the first error;
+       consumes the reader, so only as the last call). *)
+Inductive rop := OIter (j : Z) | ONth (i : Z) | OSeek (k : Z) | OCount | OHint | OSkipTake (k j : Z) | OReadAll.
 
 Definition p_rop : parser rop :=
   k <- p_next ;;
@@ -140,6 +143,8 @@ Definition p_rop : parser rop :=
   else if k =? 2 then i <- p_next ;; p_ret (OSeek i)
   else if k =? 3 then p_ret OCount
   else if k =? 4 then p_ret OHint
+  else if k =? 5 then a <- p_next ;; b <- p_next ;; p_ret (OSkipTake a b)
+  else if k =? 6 then p_ret OReadAll
   else p_fail.
 
 Definition r_header (h : header) : list Z :=
@@ -159,6 +164,10 @@ Definition rcall_of (cap : nat) (o : rop) : rcall :=
   | OSeek k => RSeek k
   | OCount => RCount
   | OHint => RHint
+  (* `skip(k).take(j)` with j >= 1 pulls k + j items (or until the iteration ends) and keeps the last j *)
+  | OSkipTake k j => RIter (Z.to_nat k + Z.to_nat j)
+  (* `collect::<Result<Vec<_>, _>>()` pulls until the iteration ends or an item is an error *)
+  | OReadAll => RIter cap
   end.
 
 Definition r_rout (o : rout) : list Z :=
@@ -170,8 +179,25 @@ Definition r_rout (o : rout) : list Z :=
   | OHintR h => match h with None => [0] | Some n => [1; n] end
   end.
 
+(** First error among the items, or all the values. *)
+Fixpoint collect_items (items : list (res shape)) : res (list shape) :=
+  match items with
+  | [] => Ok []
+  | Ok s :: r => match collect_items r with Ok l => Ok (s :: l) | e => e end
+  | Err e :: _ => Err e
+  | Panic :: _ => Panic
+  end.
+
+Definition r_rout_for (o : rop) (out : rout) : list Z :=
+  match o, out with
+  | OSkipTake k _, OItems items _ => let l := skipn (Z.to_nat k) items in zlen l :: flat_map r_item l
+  | OReadAll, OItems items _ => r_res (fun l => zlen l :: flat_map r_shape l) (collect_items items)
+  | _, _ => r_rout out
+  end.
+
 Definition run_rops (cap : nat) (req : option shape_type) (st : rstate) (os : list rop) : prog (list Z) :=
-  x <-- r_calls req st (map (rcall_of cap) os) ;; Ret (flat_map r_rout (fst x)).
+  x <-- r_calls req st (map (rcall_of cap) os) ;;
+  Ret (flat_map (fun p => r_rout_for (fst p) (snd p)) (combine os (fst x))).
 
 Definition decode_req (c : Z) : option (option shape_type) :=
   if c =? -1 then Some None else
